@@ -30,7 +30,7 @@ def run(ctx):
 
     # ---- leg B generator
     rng = random.Random(ctx.seed)
-    behs = vlib.tlc_behaviours(ctx, "Handler", "Handler_gen_c15.cfg", simulate=5000 if T else 700, depth=26, timeout=900)
+    behs = vlib.tlc_behaviours(ctx, "Handler", "Handler_gen_c15.cfg", simulate=5000 if T else 500, depth=26, timeout=900)
     cases, infeasible = [], 0
     for b in behs:
         c = hc.concretize(rng, len(cases), b, PROP)
